@@ -134,6 +134,23 @@ func (s *segment) setupIndex() (err error) {
 			return err
 		}
 	}
+	// If the process died between the log write and the index write, the log
+	// holds data the index does not cover. Left alone, that tail would be
+	// readable without being accounted for and the next append would reuse
+	// its offset, so re-index the log.
+	var indexedEnd int64
+	if lastEntry != nil {
+		indexedEnd = lastEntry.Position + int64(lastEntry.Size)
+	}
+	if indexedEnd < s.position {
+		if rebuildErr := s.rebuildIndex(); rebuildErr != nil {
+			return errors.Wrap(rebuildErr, "failed to rebuild stale index")
+		}
+		lastEntry, err = s.Index.InitializePosition()
+		if err != nil {
+			return errors.Wrap(err, "failed to initialize rebuilt index")
+		}
+	}
 	// If lastEntry is nil, the index is empty.
 	if lastEntry != nil {
 		s.lastOffset = lastEntry.Offset
@@ -234,6 +251,14 @@ func (s *segment) rebuildIndex() error {
 		}
 
 		pos += msgSetHeaderLen + int64(size)
+	}
+
+	// Drop an incomplete message at the end of the log, if any.
+	if pos < s.position {
+		if err := s.log.Truncate(pos); err != nil {
+			return errors.Wrap(err, "failed to truncate incomplete log tail")
+		}
+		s.position = pos
 	}
 
 	// After rebuilding, set position to file size so InitializePosition() can
